@@ -431,6 +431,14 @@ func genTransformProg() *rapid.Generator[*ast.Node] {
 			c = append(c, ast.ArrN(ast.StrN("a"), ast.NumN(2)))
 		case 4:
 			c = append(c, ast.NameN("zz"))
+		case 5: // names taken from the matched object itself (evaluated per object)
+			c = append(c, name())
+		case 6:
+			c = append(c, ast.PathN(ast.VarN(""), name()))
+		case 7:
+			c = append(c, ast.ArrN(ast.StrN("a"), ast.PathN(ast.VarN(""), name())))
+		case 8:
+			c = append(c, ast.CallN("keys", ast.VarN("")))
 		}
 		tr := &ast.Node{K: ast.Transform, C: c}
 		arg := rapid.OneOf(
